@@ -111,7 +111,12 @@ def judge(ctx, events):
     for i, why in rejects:
         e = events[i]
         key, what = classify(e, why)
-        ctx.candidate(key, what, dict(event=e, summary=summary(e)))
+        case = dict(event=e, summary=summary(e))
+        if e.get("k"):
+            # evaluated after earlier evaluations / in-place edits of the same object: keep the whole chain
+            j = i - e["k"]
+            case["chain"] = [dict(tx=x["tx"], idx=x["idx"], ht=x["ht4"][0]) for x in events[j:i + 1] if x.get("obj") == e.get("obj")]
+        ctx.candidate(key, what, case)
     ctx.cov["traces_validated_against_impl"] += len(events)
     ctx.count_cases(len(events), {(e["idx"], e["ht4"][0], bytes(e["pre"]).hex()) for e in events if e["outcome"] == "ok"})
 
@@ -151,7 +156,10 @@ def validate_with_obligations(ctx, events, shards=12):
 def replay(ctx, case, alg):
     e = case["case"]["event"]
     one = os.path.join(ctx.tmp, "one.ndjson")
-    vf.write_ndjson(one, [dict(k="case", tx=e["tx"], idx=e["idx"], ht=e["ht4"][0], force=True)])
+    if case["case"].get("chain"):
+        vf.write_ndjson(one, [dict(k="case", chain=case["case"]["chain"])])
+    else:
+        vf.write_ndjson(one, [dict(k="case", tx=e["tx"], idx=e["idx"], ht=e["ht4"][0], force=True)])
     out = os.path.join(ctx.tmp, "one-out.ndjson")
     ctx.run_vh(["sighash", "-alg", alg, "-only", "-cases", one, "-out", out])
     judge(ctx, vf.read_ndjson(out))
